@@ -18,15 +18,19 @@ from common import Infra, NCPU
 STRIDES = {"quick": [("cfg/CasperGen.n1.quick.cfg", 1, 0, 6), ("cfg/CasperGen.n3me.quick.cfg", 3, 0, 12),
                      ("cfg/CasperGen.n3ext.quick.cfg", 3, 99, 60)],
            "thorough": [("cfg/CasperGen.n1.quick.cfg", 1, 0, 1), ("cfg/CasperGen.n3me.quick.cfg", 3, 0, 1),
-                        ("cfg/CasperGen.n3ext.quick.cfg", 3, 99, 4), ("cfg/CasperGen.n1.thorough.cfg", 1, 0, 8)]}
+                        ("cfg/CasperGen.n3ext.quick.cfg", 3, 99, 4), ("cfg/CasperGen.n1.thorough.cfg", 1, 0, 8),
+                        ("cfg/CasperGen.deep.cfg", 4, 0, 1, 100, 90)]}
 
 
 def run(ctx):
     b = ctx.build("casper")
     states = trans = cases = points = 0
     samples, cfgs = [], []
-    for cfg, n, me, stride in STRIDES[ctx.tier]:
-        r = chain_lib.tlc_cached(ctx, "chain/CasperGen", cfg, timeout=6000, tag="casper N=%d Me=%d" % (n, me))
+    for ent in STRIDES[ctx.tier]:
+        cfg, n, me, stride = ent[:4]
+        sim, depth = (ent[4], ent[5]) if len(ent) > 4 else (None, None)    # seeded deep random walks
+        r = chain_lib.tlc_cached(ctx, "chain/CasperGen", cfg, timeout=6000, tag="casper N=%d Me=%d" % (n, me),
+                                 workers=8 if sim else None, simulate=sim, depth=depth, min_exports=20 if sim else 100)
         h = ctx.harness([b, "crash", r.path, str(NCPU), str(n), str(me), str(stride)], timeout=6000, keep=chain_lib.mine(ctx))
         s = h["summary"]
         if s.get("unreproducible_worker_deaths", 0):
